@@ -40,6 +40,21 @@ LAYOUT = {
 }
 
 
+def layout_of(inp):
+    """column layout of an input: the default one, or a variant in which ONE table reaches further to the right than the
+    other two (inp["layout"] = "intra-wide" | "out-wide" | "in-wide"): nothing may assume that the three tables end in the
+    same column"""
+    v = (inp or {}).get("layout")
+    if not v:
+        return LAYOUT
+    lay = {t: dict(m) for t, m in LAYOUT.items()}
+    t = v.split("-")[0]
+    lay[t]["unique_id"], lay[t]["notes"] = 17, 16
+    if t == "intra":
+        lay[t]["crypto_received"] = 15
+    return lay
+
+
 def day_of(d):
     return (d - EPOCH).days
 
@@ -228,13 +243,15 @@ def gen_input(rng, shape=None, n_assets=None, out_types=None):
             assets.append(gen_asset(rng, names[k], ne, nh, "plain", off, out_types, y0=2017 + 2 * k))
             continue
         assets.append(gen_asset(rng, names[k], ne, nh, sh, off, out_types))
-    return {"shape": shape, "exchanges": exchanges, "holders": holders, "assets": assets, "off": off}
+    lay = rng.choice([None] * 6 + ["intra-wide", "intra-wide", "out-wide", "in-wide"])
+    return {"shape": shape, "exchanges": exchanges, "holders": holders, "assets": assets, "off": off, "layout": lay}
 
 
 def rows_of(inp, a, order=("in", "out", "intra"), perm=None):
     """sheet rows (python cell values) of asset dict a; perm: {table: list of indices} reorders data rows"""
     from harness import l1
-    width = 15
+    LAY = layout_of(inp)
+    width = 1 + max(c for m in LAY.values() for c in m.values())
     rows = []
     ex, ho = inp["exchanges"], inp["holders"]
     src = {"in": a["ins"], "out": a["outs"], "intra": a["intras"]}
@@ -248,7 +265,7 @@ def rows_of(inp, a, order=("in", "out", "intra"), perm=None):
         r = [None] * width
         r[0] = l1.KEYWORD[t]
         rows.append(r)
-        m = LAYOUT[t]
+        m = LAY[t]
         r = [None] * width
         for f, c in m.items():
             r[c] = f.replace("_", " ").title()
@@ -288,7 +305,7 @@ def ini_text(inp, extra="", assets=None, holders=None):
     s += "holders = " + ", ".join(holders or inp["holders"]) + "\n\n"
     for t in ("in", "out", "intra"):
         s += f"[{t}_header]\n"
-        for fld, col in LAYOUT[t].items():
+        for fld, col in layout_of(inp)[t].items():
             s += f"{fld} = {col}\n"
         s += "\n"
     return s + extra
